@@ -145,6 +145,14 @@ def run(tier: str) -> int:
     e_.set_constraint(_FixRot())
     e_.calc = EMT()
     systems.append(("emt_fixrot_mixed_masses", e_))
+    # restraints (ASE "constraints" that add a force and an energy instead of projecting): their force is part of the forces
+    # the trajectory integrates, their energy part of the total energy the acceptance test uses
+    from ase.constraints import Hookean as _Hookean
+
+    f_ = Atoms("Cu4", positions=[[0, 0, 0], [2.6, 0, 0], [1.3, 2.2, 0], [1.3, 0.8, 2.1]], cell=[20, 20, 20], pbc=False)
+    f_.set_constraint([_Hookean(a1=0, a2=(0.4, -0.3, 0.2), k=1.5, rt=0.0), _Hookean(a1=2, a2=3, k=0.8, rt=0.0)])
+    f_.calc = EMT()
+    systems.append(("emt_hookean_restraints", f_))
     nreal = 0
     for name, at in systems:
         from ase.md.velocitydistribution import MaxwellBoltzmannDistribution
